@@ -144,6 +144,7 @@ def fill_convexhull(bwimg):
     canvas = np.zeros_like(bwimg)
     black = (1 if bwimg.dtype == np.bool_ else 255)
     fill_polygon(points, canvas, black)
-    canvas[bwimg] = black
+    # `bwimg` is interpreted as boolean: as an index, an integer array would select rows
+    canvas[np.asanyarray(bwimg) != 0] = black
     return canvas
 
